@@ -98,6 +98,8 @@ func Walk(v Visitor, node Node) {
 						Walk(v, e)
 					}
 				}
+			case *DomainTextLitEx:
+				walkList(v, e.Args)
 			}
 		}
 
@@ -325,6 +327,9 @@ func Walk(v Visitor, node Node) {
 		if n.Type != nil {
 			Walk(v, n.Type)
 		}
+		if n.Tag != nil {
+			Walk(v, n.Tag)
+		}
 		walkList(v, n.Values)
 		if n.Comment != nil {
 			Walk(v, n.Comment)
@@ -389,6 +394,14 @@ func Walk(v Visitor, node Node) {
 	case *SliceLit:
 		walkList(v, n.Elts)
 
+	case *MatrixLit:
+		for _, row := range n.Elts {
+			walkList(v, row)
+		}
+
+	case *ElemEllipsis:
+		Walk(v, n.Elt)
+
 	case *LambdaExpr:
 		walkList(v, n.Lhs)
 		walkList(v, n.Rhs)
@@ -404,13 +417,13 @@ func Walk(v Visitor, node Node) {
 		if n.Value != nil {
 			Walk(v, n.Value)
 		}
+		Walk(v, n.X)
 		if n.Init != nil {
 			Walk(v, n.Init)
 		}
 		if n.Cond != nil {
 			Walk(v, n.Cond)
 		}
-		Walk(v, n.X)
 
 	case *ComprehensionExpr:
 		if n.Elt != nil {
